@@ -1,12 +1,15 @@
 // C10, programs of several chains on ONE engine (families R and I).
 //
 // R — repeated renders: one cached chain whose parent names are dynamic (conditionals, variables,
-//     concatenations, at every level independently) is rendered three times on one engine with
-//     contexts that select different parents; every render must equal the model for its own context.
+//
+//	concatenations, at every level independently) is rendered three times on one engine with
+//	contexts that select different parents; every render must equal the model for its own context.
+//
 // I — extending templates reached through {% include %}: a page (plain, or the top of an extends
-//     chain of its own whose block names collide with the widget's) includes one, two or three
-//     children of one layout (same child twice, two siblings, in a loop); every included child must
-//     render what it renders on its own and the blocks of the including chain must be unaffected.
+//
+//	chain of its own whose block names collide with the widget's) includes one, two or three
+//	children of one layout (same child twice, two siblings, in a loop); every included child must
+//	render what it renders on its own and the blocks of the including chain must be unaffected.
 //
 // Both use the AST, printer and evaluator of main.go; the evaluator resolves a template by name,
 // walks its extends chain under the variables of the render, and gives an include a block table of
@@ -15,6 +18,8 @@ package main
 
 import (
 	"fmt"
+	"runtime"
+	"runtime/debug"
 	"sort"
 	"strings"
 
@@ -152,6 +157,12 @@ func (c *kase) chKey() string {
 	return b.String()
 }
 
+// a correct render of a generated page executes at most 3 includes (three children; the page's own
+// definitions call parent() at most once). The limit is kept low because under a broken engine the
+// definition lists may grow with every nested include, and a body that calls parent() twice then
+// costs 2^depth
+const fuelLimit = 8
+
 type step struct {
 	entry string
 	ctx   func() map[string]interface{}
@@ -162,6 +173,19 @@ type step struct {
 func runSteps(ds []*tdef, steps []step) (outs []string, errs []string) {
 	outs, errs = make([]string, len(steps)), make([]string, len(steps))
 	e := twig.New()
+	// guard against runaway recursion (under a broken engine an included child may end up including
+	// itself; the stack overflow that follows cannot be recovered in Go, and with parent() twice per
+	// level the way there is exponential): every include is preceded by {{ fuel() }}, which prints
+	// nothing; after fuelLimit calls within one render it ends the rendering goroutine with
+	// runtime.Goexit, which no error handling or recover() inside the engine can swallow
+	fuel := 0
+	e.AddFunction("fuel", func(args ...interface{}) (interface{}, error) {
+		fuel++
+		if fuel > fuelLimit {
+			runtime.Goexit()
+		}
+		return "", nil
+	})
 	names := make([]string, 0, len(ds))
 	src := map[string]string{}
 	for _, d := range ds {
@@ -178,14 +202,44 @@ func runSteps(ds []*tdef, steps []step) (outs []string, errs []string) {
 		}
 	}
 	for i, s := range steps {
-		o, err := e.Render(s.entry, s.ctx())
-		if err != nil {
-			errs[i] = "render: " + err.Error()
-			continue
+		fuel = 0
+		type rres struct {
+			out string
+			err string
 		}
-		outs[i] = o
+		ch := make(chan rres, 1)
+		entry, ctx := s.entry, s.ctx()
+		go func() {
+			finished := false
+			defer func() {
+				if finished {
+					return
+				}
+				if p := recover(); p != nil {
+					ch <- rres{err: fmt.Sprintf("panic: %v\n%s", p, firstBytes(string(debug.Stack()), 3000))}
+					return
+				}
+				ch <- rres{err: fmt.Sprintf("render aborted: more than %d includes executed in one render (runaway include recursion)", fuelLimit)}
+			}()
+			o, err := e.Render(entry, ctx)
+			finished = true
+			if err != nil {
+				ch <- rres{err: "render: " + err.Error()}
+				return
+			}
+			ch <- rres{out: o}
+		}()
+		r := <-ch
+		outs[i], errs[i] = r.out, r.err
 	}
 	return
+}
+
+func firstBytes(s string, n int) string {
+	if len(s) > n {
+		return s[:n]
+	}
+	return s
 }
 
 func showSources(ds []*tdef) map[string]string {
@@ -409,7 +463,7 @@ func checkR(c rcase) *vlib.Outcome {
 			dyn++
 		}
 	}
-	o.Class = fmt.Sprintf("R/%s/L%d/dyn%d/%s>%s>%s/d%d%s", layoutName[c.K.Layout], c.K.L, dyn, sig(paths[0]), sig(paths[1]), sig(paths[2]), maxDepth, flags)
+	o.Class = fmt.Sprintf("R/%s/L%d/dyn%d/%s>%s/d%d%s", layoutName[c.K.Layout], c.K.L, dyn, sig(paths[0]), sig(paths[1]), maxDepth, flags)
 	if c.K.Pad > 0 {
 		o.Class += "/pad"
 	}
@@ -530,9 +584,9 @@ const (
 	pmChain        // `pg` extends `pl` and is rendered
 )
 const (
-	ipOutside = iota // the includes stand in pl between its blocks
-	ipDefault        // … inside the default body of pl's block b
-	ipOverride       // … inside pg's overriding definition of a
+	ipOutside  = iota // the includes stand in pl between its blocks
+	ipDefault         // … inside the default body of pl's block b
+	ipOverride        // … inside pg's overriding definition of a
 )
 const (
 	poAbsent = iota
@@ -593,14 +647,14 @@ func (c *icase) incItems() []item {
 	var r []item
 	switch c.Style {
 	case isLoop:
-		return seq(item{kind: kFor, s: "kids", val: "kid", body: seq(inc("kid", ""), text(";"))})
+		return seq(item{kind: kFor, s: "kids", val: "kid", body: seq(pvar("fuel()"), inc("kid", ""), text(";"))})
 	case isLiteral:
 		for _, n := range c.kidNames() {
-			r = append(r, inc("'"+n+"'", ""), text(";"))
+			r = append(r, pvar("fuel()"), inc("'"+n+"'", ""), text(";"))
 		}
 	case isWith:
 		for _, n := range c.kidNames() {
-			r = append(r, inc("'"+n+"'", " with {'zz': 'q'}"), text(";"))
+			r = append(r, pvar("fuel()"), inc("'"+n+"'", " with {'zz': 'q'}"), text(";"))
 		}
 	}
 	return r
@@ -701,7 +755,7 @@ func checkI(c icase) *vlib.Outcome {
 	if m.bad != "" {
 		return &vlib.Outcome{Violation: m.bad}
 	}
-	cls := fmt.Sprintf("I/%s/L%d/pg%d%s/%s/%s/n%d/d%d", layoutName[c.K.Layout], c.K.L, c.P.Mode, ipName[c.P.Pos], incPatterns[c.Pat], incStyleName[c.Style], m.includes, m.maxDepth)
+	cls := fmt.Sprintf("I/%s/L%d/pg%d%s/%s/n%d/d%d", layoutName[c.K.Layout], c.K.L, c.P.Mode, ipName[c.P.Pos], incStyleName[c.Style], m.includes, m.maxDepth)
 	if m.emptySel {
 		cls += "e"
 	}
